@@ -298,6 +298,14 @@ def build() -> Check:
             badb.append((f"a branch ending with {oc} is booked as {st_calls[:1]} (expected {ws})", t))
         if cnt_calls != ([wc] if wc else []):
             badb.append((f"a branch ending with {oc} updates the counters via {cnt_calls} (expected {[wc] if wc else []})", t))
+        # ... and in this order: the policy is decided from the counters by whichever done-callback runs next, and the waiting call builds the result from
+        # the branch states - a counted outcome whose branch state still says RUNNING is reported STARTED although it decided the policy (r6_C09)
+        bi = next((i for i, e in enumerate(t.events) if e.kind == "BRANCH"), None)
+        ci_ = next((i for i, e in enumerate(t.events) if e.kind == "COUNTER"), None)
+        if bi is not None and ci_ is not None and ci_ < bi:
+            badb.append((f"a branch ending with {oc} is counted ({cnt_calls[0]}) BEFORE its state is published ({st_calls[0]}): a sibling's done-callback running in "
+                         "between sees the policy decided and releases the caller, which reports this branch STARTED - without its result / error - although its "
+                         "outcome is what decided the policy (ALL_COMPLETED with a STARTED item; a fail-fast batch without a failure)", t))
         if oc == "return":
             e0 = next((e for e in t.events if e.kind == "BRANCH"), None)
             if e0 is None or e0.data["args"][:1] != ["branch_result"]:
